@@ -420,18 +420,7 @@ def h4(ctx, R):
                 if sites and all(suspended(c) for c in sites):
                     always_suspended.add(g.name)
                     grew = True
-    nread = 0
-    for f in prog.all_funcs():
-        for n_ in walk_no_nested(f.node):
-            if isinstance(n_, ast.Attribute) and n_.attr == "loaded_extensions" and isinstance(n_.ctx, ast.Load):
-                nread += 1
-                if f.qualname in allowed or f is R.reset:
-                    continue
-                ctx.violation("H4", f, "registry-read:%s" % f.qualname, "%s reads the process-global extension registry: its result depends on which "
-                              "script was parsed last, not on its own input" % f.qualname, node=n_,
-                              witness="from_parser_result(P1) called after another parse returns the other script's requires")
-    if nread:
-        ctx.holds("H4", "registry read at %d places, all in the gates / complete_cb" % nread)
+    registry_readers(ctx, R, allowed)
     table = R.table()
     by_name = {e["name"]: e for e in table.values() if not e["abstract"]}
     lk, cna = R.lookup, R.check_next_arg
@@ -595,3 +584,29 @@ def bounded_names(prog, f, call, a0):
                     if ok_sites and not bad_sites:
                         return list(keys)
     return None
+
+
+def registry_readers(ctx, R, allowed=None):
+    """Who reads the process-global extension registry (shared with C11: what a loader returns must come from the parser it was given)."""
+    prog = ctx.program
+    if allowed is None:
+        allowed = {R.lookup.qualname, R.check_next_arg.qualname, R.valid_value.qualname if R.valid_value else "", "RequireCommand.complete_cb"}
+    nread = 0
+    for f in prog.all_funcs():
+        for n_ in walk_no_nested(f.node):
+            if isinstance(n_, ast.Attribute) and n_.attr == "loaded_extensions" and isinstance(n_.ctx, ast.Load):
+                base = n_.value
+                base_name = base.attr if isinstance(base, ast.Attribute) else (base.id if isinstance(base, ast.Name) else None)
+                bc = prog.cls(base_name) if base_name else None
+                if bc is None and not (isinstance(base, ast.Name) and base.id in ("cls",)):
+                    # an attribute of some object that happens to carry the name: is it the registry?  Only when the object's
+                    # class gives it that meaning (a property returning the registry is judged where it is defined)
+                    continue
+                nread += 1
+                if f.qualname in allowed or f is R.reset:
+                    continue
+                ctx.violation("H4", f, "registry-read:%s" % f.qualname, "%s reads the process-global extension registry: its result depends on which "
+                              "script was parsed last, not on its own input" % f.qualname, node=n_,
+                              witness="from_parser_result(P1) called after another parse returns the other script's requires")
+    if nread:
+        ctx.holds("H4", "registry read at %d places, all in the gates / complete_cb" % nread)
